@@ -747,9 +747,16 @@ def _section_end(p: _P) -> int:
     i = p.i + 1
     b = p.b
     n = len(b)
+    depth = 0
     while i < n:
         c = b[i]
-        if c == 0x5d:
+        if c == 0x28:
+            depth += 1
+        elif c == 0x29 and depth:
+            depth -= 1
+        elif c == 0x5d and not depth:
+            # ']' is an ASTRING-CHAR: inside the parenthesised header list it
+            # is part of a header field name, not the end of the section
             return i
         if c == 0x22:
             i += 1
